@@ -7,14 +7,20 @@ import (
 	"verifharness/hx"
 )
 
-// Scenario families (every random choice from r):
-//   single     one call on any DA content / limit / fault pattern, then restart        (cannot re-release)
+// Scenario families (every random choice from r). Since the repair of GetNextBatch (a push-back
+// consumes its height, a height from the future stops the scan, no scan past un-popped carry-over)
+// every family must stay silent; the families named after the former findings are the inputs that
+// showed them and now guard the repair:
+//   single     one call on any DA content / limit / fault pattern, then restart
 //   exactfill  uniform tx size, limit = k*size: push-back and carry-over batches that fill the limit
-//              exactly, so the scan is not re-entered; restarts between calls          (cannot re-release)
-//   allfit     everything fits, many heights, faults set/cleared, restarts, drained    (cannot re-release)
-//   rerelease  push-back followed by further calls                                     (KNOWN: height-rereleased)
-//   future     the scan reaches the DA head, content arrives later                     (KNOWN: future-height-skipped)
-//   oversize   a tx larger than the limit                                              (KNOWN: oversize-tx-overtaken)
+//              exactly; restarts between calls
+//   allfit     everything fits, many heights, faults set/cleared, restarts, drained up to the DA head
+//   rerelease  push-back followed by further calls, drained   (was: height-rereleased, stuck-at-rereleased-height)
+//   future     the scan reaches the DA head, content arrives later, drained   (was: future-height-skipped)
+//   oversize   a tx larger than the limit: nil responses until a larger limit arrives, then drained
+//              (was: oversize-tx-overtaken)
+//   anylimit   a different limit on every call, many smaller than a tx, restarts, drained
+//   flaky      the DA grows between the calls, retrieval faults come and go, then drained
 //   lawless    forged LastBatchData, wrong chain id, any op order (contract=0: size bound + correspondence only)
 //   malformed  broken op lines
 type g struct {
@@ -135,7 +141,7 @@ func (g *g) allfit() {
 		ntx += n
 		g.p("put h=%d txs=%s", h, hx.HexList(g.txs(n, 0, 9)))
 	}
-	head := 400
+	head := nh + g.r.Intn(6)
 	g.p("head n=%d", head)
 	max := []int{0, 100000, 5000}[g.r.Intn(3)]
 	calls := 3 + g.r.Intn(10)
@@ -156,11 +162,9 @@ func (g *g) allfit() {
 	for _, f := range faulty {
 		g.p("fault h=%d k=none", f)
 	}
-	// drain: bounded so that the scan stays below the DA head (no height "from the future" is met)
-	k := ntx + nh + 3
-	if (calls+k)*(int(drift)+1)+int(start) < head-int(drift)-2 {
-		g.p("end max=%d calls=%d", 100000, k)
-	}
+	// drain up to the DA head (the scan stops there and is not allowed to run past it)
+	_ = drift
+	g.p("end max=%d calls=%d", 100000, ntx+head+3)
 }
 
 func (g *g) rerelease() {
@@ -192,22 +196,31 @@ func (g *g) future() {
 	start, drift := uint64(g.r.Intn(3)), uint64(1+g.r.Intn(4))
 	g.p("reset start=%d drift=%d fam=future", start, drift)
 	nh := int(start) + 1 + g.r.Intn(3)
+	ntx := 0
 	for h := int(start); h < nh; h++ {
-		g.p("put h=%d txs=%s", h, hx.HexList(g.txs(1+g.r.Intn(3), 1, 6)))
+		n := 1 + g.r.Intn(3)
+		ntx += n
+		g.p("put h=%d txs=%s", h, hx.HexList(g.txs(n, 1, 6)))
 	}
 	// calls until the scan has run into the future
 	for i := 0; i < 2+g.r.Intn(3); i++ {
 		g.p("next max=0")
 		g.maybeRestart(30)
 	}
-	// the DA grows: the heights the scan has run over now hold txs
-	for h := nh; h < nh+1+g.r.Intn(3); h++ {
-		g.p("put h=%d txs=%s", h, hx.HexList(g.txs(1+g.r.Intn(3), 1, 6)))
+	// the DA grows: the heights the scan had reached now hold txs
+	top := nh + 1 + g.r.Intn(3)
+	for h := nh; h < top; h++ {
+		n := 1 + g.r.Intn(3)
+		ntx += n
+		g.p("put h=%d txs=%s", h, hx.HexList(g.txs(n, 1, 6)))
 	}
-	g.p("head n=%d", nh+40)
+	head := top + 3 + g.r.Intn(30)
+	g.p("head n=%d", head)
 	for i := 0; i < 2+g.r.Intn(3); i++ {
 		g.p("next max=0")
+		g.maybeRestart(20)
 	}
+	g.p("end max=0 calls=%d", ntx+head+3)
 }
 
 func (g *g) oversize() {
@@ -220,11 +233,67 @@ func (g *g) oversize() {
 	after := g.txs(1+g.r.Intn(2), 1, 2)
 	g.p("put h=%d txs=%s", h, hx.HexList(append(append(small, big), after...)))
 	g.p("put h=%d txs=%s", h+1, hx.HexList(g.txs(2, 1, 2)))
-	g.p("head n=%d", 100)
+	head := h + 2 + g.r.Intn(20)
+	g.p("head n=%d", head)
 	for i := 0; i < 3+g.r.Intn(3); i++ {
 		g.p("next max=%d", max)
 		g.maybeRestart(30)
 	}
+	// a limit that admits the big tx (sometimes exactly) arrives: it must come first
+	g.p("next max=%d", len(big)+g.r.Intn(3))
+	g.maybeRestart(30)
+	g.p("end max=%d calls=%d", len(big)+1+g.r.Intn(8), 8+head+3)
+}
+
+func (g *g) anylimit() {
+	start, drift := uint64(g.r.Intn(3)), uint64(g.r.Intn(4))
+	g.p("reset start=%d drift=%d fam=anylimit", start, drift)
+	nh := 2 + g.r.Intn(6)
+	ntx := 0
+	for h := 0; h < nh; h++ {
+		n := g.r.Intn(5)
+		ntx += n
+		g.p("put h=%d txs=%s", h, hx.HexList(g.txs(n, 0, 7)))
+	}
+	head := nh + g.r.Intn(5)
+	g.p("head n=%d", head)
+	for i, n := 0, 4+g.r.Intn(12); i < n; i++ {
+		g.p("next max=%d", 1+g.r.Intn(10))
+		g.maybeRestart(25)
+	}
+	g.p("end max=%d calls=%d", 8+g.r.Intn(10), ntx+head+3)
+}
+
+func (g *g) flaky() {
+	start, drift := uint64(g.r.Intn(3)), uint64(g.r.Intn(4))
+	g.p("reset start=%d drift=%d fam=flaky", start, drift)
+	h, ntx := 0, 0
+	var faulty []int
+	for i, n := 0, 6+g.r.Intn(14); i < n; i++ {
+		switch g.r.Intn(6) {
+		case 0, 1: // the DA grows
+			k := g.r.Intn(4)
+			ntx += k
+			g.p("put h=%d txs=%s", h, hx.HexList(g.txs(k, 1, 6)))
+			h++
+		case 2:
+			f := g.r.Intn(h + 2)
+			g.p("fault h=%d k=%s", f, []string{"errids", "errget"}[g.r.Intn(2)])
+			faulty = append(faulty, f)
+		case 3:
+			if len(faulty) > 0 {
+				g.p("fault h=%d k=none", faulty[0])
+				faulty = faulty[1:]
+			}
+		default:
+			g.p("next max=%d", []int{0, 4, 7, 9, 30}[g.r.Intn(5)])
+			g.maybeRestart(25)
+		}
+	}
+	for _, f := range faulty {
+		g.p("fault h=%d k=none", f)
+	}
+	g.p("end max=%d calls=%d", 7+g.r.Intn(30), ntx+h+3)
 }
 
 func (g *g) lawless() {
@@ -288,7 +357,7 @@ func gen(r *hx.Rng, tier string, w io.Writer) {
 	if tier == "thorough" {
 		n = 400
 	}
-	// deliberate known-finding inputs first
+	// the input that showed the former findings height-rereleased / stuck-at-rereleased-height
 	x.p("reset start=1 drift=2 fam=seeded")
 	x.p("put h=1 txs=aa01,aa02,aa03")
 	x.p("put h=2 txs=bb01")
@@ -305,6 +374,8 @@ func gen(r *hx.Rng, tier string, w io.Writer) {
 		x.rerelease()
 		x.future()
 		x.oversize()
+		x.anylimit()
+		x.flaky()
 		x.lawless()
 		if i%8 == 0 {
 			x.malformed()
